@@ -44,16 +44,21 @@ def values_for(ty, rng, c):
                 1e21, 1e300, -1e300, 5e-324, math.nan, math.inf, -math.inf, 4294967295.5, -2147483648.5, 3.0, 1e-7]
     if n == "JSPrim":
         return prim_grid()
-    if n in ("JSVal", "PyVal"):
-        return prim_grid() + (obj_grid() if not c.prim_args or n == "JSVal" else [])
+    if n == "PyVal":
+        return [None, 0, 1, 2, 5, 255, 256, 257, 65535, 65536, 70000, -1, 3] + prim_grid()[:4]
+    if n == "JSVal":
+        return prim_grid() + obj_grid()
     if n == "ValList":
         from microjs.values import UNDEFINED
-        return [[], [1], [UNDEFINED, "x"], [0.5, True, "a"]]
+        return [[], [1], [UNDEFINED, "x"], [0.5, True, "a"], [7, 0, 0, 9, 0, 0, 255], [1, 2, 3, 4, 5, 6, 7, 8]]
     if n == "Obj":
         cls = ty.kw["cls"]
         if cls == "VM":
             from microjs.vm import VM
             return [VM]            # factories: called per case
+        if cls == "Compiler":
+            from microjs.compiler import Compiler
+            return [lambda: Compiler()]
         if cls == "CallFrame":
             from microjs.vm import CallFrame
             from microjs.compiler import CompiledFunction
